@@ -25,7 +25,7 @@
 
    Not modelled: a requester that returns an error (deserialisation of data whose hash
    was requested fails; cannot happen for data below a well-formed trusted root), a
-   failing database, the nil-key guard of RequestData (the trie never asks for an empty
+   failing database other than a failing Set inside OnData (on_data_fail), the nil-key guard of RequestData (the trie never asks for an empty
    hash), buckets without a hasher other than through ONoHasher, Flush(false) (discards
    the buffered nodes by design; the sync code only calls Flush(true)), locking.
 
@@ -108,7 +108,7 @@ Definition request_data (p : list req) (mark : option bytes) (bk : N) (h : bytes
 Definition remove_req (p : list req) (h : bytes) : list req :=                        (* requests.Remove(e); delete(reqMap, reqID) *)
   filter (fun e => negb (bytes_eqb (fst e) h)) p.
 
-Inductive out := ROk | RNoRequester | RNoHasher.
+Inductive out := ROk | RNoRequester | RNoHasher | RFail.
 
 Record state := { dbs : db; pending : list req; resolved : nat }.
 
@@ -142,6 +142,19 @@ Section Builder.
     | Some bks =>
         let r := fold_left (deliver_one d h) bks (dbs s, (pending s, Some h)) in
         ({| dbs := fst r; pending := remove_req (fst (snd r)) h; resolved := S (resolved s) |}, ROk)
+    end.
+
+  (* OnData in which the database write of the i-th requester (0-based) FAILS (bk.Set returns
+     an error: OnData returns it at once).  The requesters before it have been served (value
+     stored in their bucket, their references requested); nothing else happens: the request
+     stays in the list and in the map, resolved is not incremented. *)
+  Definition on_data_fail (s : state) (d : bytes) (i : nat) : state * out :=
+    let h := H d in
+    match find_req (pending s) h with
+    | None => (s, RNoRequester)
+    | Some bks =>
+        let r := fold_left (deliver_one d h) (firstn i bks) (dbs s, (pending s, Some h)) in
+        ({| dbs := fst r; pending := fst (snd r); resolved := resolved s |}, RFail)
     end.
 
   (* trie.Resolve(builder) on a trie opened on builder.Database() with root hash snd r
